@@ -130,42 +130,81 @@ def checkTag (a : JAcc) (i : Nat) (c : Completion) (hasTag : Bool) (want : Bytes
     a.cause "cause=untagged-line-empty-tag" s!"line {i}: the line has no tag, the completion has an EMPTY tag instead of *"
   else a.cause "cause=wrong-tag" s!"line {i}: completion tagged {showHex c.tag}, expected {showHex want}"
 
+def isReaderReply : ReadRes → Bool
+  | .tlsOk _ => true
+  | .tlsNo _ => true
+  | _ => false
+
+/-- strip the longest prefix of `rr` (in order) that `obs` starts with: how many, and what is left of both -/
+def stripRun : List Completion → List Completion → Nat × List Completion × List Completion
+  | r :: rr, o :: obs => if r == o then let x := stripRun rr obs; (x.1 + 1, x.2.1, x.2.2) else (0, r :: rr, o :: obs)
+  | rr, obs => (0, rr, obs)
+
+/-- the property on the lines the reader answers itself (STARTTLS) -/
+def checkRun (a : JAcc) (i : Nat) : List Line → List Completion → JAcc
+  | l :: ls, c :: cs => checkRun ((checkTag a i c (lineTag l.bytes).isSome (expectedTag l.bytes)).feat "starttls") (i + 1) ls cs
+  | _, _ => a
+
 /-- walk over the reader model's lines with `serveStep`, taking the backend's choices from the observation;
-`idleTag` = the tag the property expects for the completion that ends a running IDLE.
+`idleWant` = the tag the property expects for the completion that ends a running IDLE.
+
+The reader is one line ahead of `serve`, and the lines it answers itself (STARTTLS) never go through the channel:
+its replies to the run of such lines that follows a line `k` may be written BEFORE `serve`'s completion for `k`
+(and, when `serve` closes the session at `k`, some of them may still get out). The walk therefore reads, for
+every line `k` that `serve` answers: any prefix of the run's replies, then `serve`'s, then the rest of the run's.
 Returns `Except mismatch (acc, how serve ended, rest of the observation)`. -/
-def walk (cfg : Cfg) : Nat → List Line → SState JState → Option Bytes → List Completion → JAcc →
+def walk (cfg : Cfg) : Nat → Nat → List Line → SState JState → Option Bytes → List Completion → JAcc →
     Except String (JAcc × Option Why × List Completion)
-  | _, [], _, _, obs, a => .ok (a, none, obs)
-  | i, l :: ls, st, idleWant, obs, a =>
-    let head := obs.head?
-    let bk : JState :=
-      { authed := st.bk.authed,
-        choice := match head with | some c => execOfCls c.cls | none => .ok,
-        inv := match head with | some c => c.cls == .bye | none => false }
-    let st := { st with bk := bk }
-    let (out, next) := serveStep cfg judgeBackend st l.res
-    if !(out.isPrefixOf obs) then
-      .error s!"line {i} ({showHex (l.bytes.take 40)}): the model says {showCompletions out}, the server wrote {showCompletions (obs.take (max out.length 1))}"
+  | 0, _, _, _, _, _, _ => .error "judge out of fuel"
+  | _, _, [], _, _, obs, a => .ok (a, none, obs)
+  | fuel + 1, i, l :: ls, st, idleWant, obs, a =>
+    if isReaderReply l.res then
+      -- a reader-answered line with no `serve`-answered line before it: in order
+      let out := (serveStep cfg judgeBackend st l.res).1
+      if !(out.isPrefixOf obs) then
+        .error s!"line {i} ({showHex (l.bytes.take 40)}): the model says {showCompletions out}, the server wrote {showCompletions (obs.take 1)}"
+      else walk cfg fuel (i + 1) ls st idleWant (obs.drop out.length) (checkRun a i [l] out)
     else
-      let obs' := obs.drop out.length
-      -- the property, on this line
-      let (a, idleWant') :=
-        match st.mode, out with
-        | .idle _, [c] =>
-          ((checkTag a i c true (idleWant.getD star)).feat "idle-end", none)
-        | .normal, [] =>
-          -- an accepted IDLE: answered together with the next line
-          (a.feat "idle-start", some (expectedTag l.bytes))
-        | .normal, [c] =>
-          let a := match l.res with
-            | .err _ => a.feat "parse-error"
-            | .cmd _ => a.feat (if c.cls == .bye then "bye-invalid-state" else "command")
-            | _ => a.feat "starttls"
-          (checkTag a i c (lineTag l.bytes).isSome (expectedTag l.bytes), none)
-        | _, _ => (a.cause "cause=completion-count" s!"line {i}: {out.length} completions", none)
-      match next with
-      | .stop w => .ok (a, some w, obs')
-      | .cont st' => walk cfg (i + 1) ls st' idleWant' obs' a
+      let run := ls.takeWhile (fun x => isReaderReply x.res)
+      let rest := ls.dropWhile (fun x => isReaderReply x.res)
+      let rr := (run.map (fun x => (serveStep cfg judgeBackend st x.res).1)).flatten
+      let (p, rr', obs) := stripRun rr obs
+      let a := if p > 0 then a.feat "reader-reply-overtakes" else a
+      let head := obs.head?
+      let bk : JState :=
+        { authed := st.bk.authed,
+          choice := match head with | some c => execOfCls c.cls | none => .ok,
+          inv := match head with | some c => c.cls == .bye | none => false }
+      let st := { st with bk := bk }
+      let (out, next) := serveStep cfg judgeBackend st l.res
+      if !(out.isPrefixOf obs) then
+        .error s!"line {i} ({showHex (l.bytes.take 40)}): the model says {showCompletions out}, the server wrote {showCompletions (obs.take (max out.length 1))}"
+      else
+        let obs := obs.drop out.length
+        -- the property, on this line
+        let (a, idleWant') :=
+          match st.mode, out with
+          | .idle _, [c] =>
+            ((checkTag a i c true (idleWant.getD star)).feat "idle-end", none)
+          | .normal, [] =>
+            -- an accepted IDLE: answered together with the next line
+            (a.feat "idle-start", some (expectedTag l.bytes))
+          | .normal, [c] =>
+            let a := match l.res with
+              | .err _ => a.feat "parse-error"
+              | _ => a.feat (if c.cls == .bye then "bye-invalid-state" else "command")
+            (checkTag a i c (lineTag l.bytes).isSome (expectedTag l.bytes), none)
+          | _, _ => (a.cause "cause=completion-count" s!"line {i}: {out.length} completions", none)
+        match next with
+        | .stop w =>
+          -- what the reader still got out for the lines right behind the closing one
+          let (q, _, obs) := stripRun rr' obs
+          .ok (checkRun a (i + 1) run (rr.take (p + q)), some w, obs)
+        | .cont st' =>
+          if !(rr'.isPrefixOf obs) then
+            .error s!"line {i + 1 + p}: the model says {showCompletions rr'} (STARTTLS answered by the reader), the server wrote {showCompletions (obs.take (max rr'.length 1))}"
+          else
+            walk cfg fuel (i + 1 + run.length) rest st' idleWant' (obs.drop rr'.length) (checkRun a (i + 1) run rr)
 
 def noBareCRLF : Bytes → Bool
   | 13 :: 10 :: r => noBareCRLF r
@@ -182,7 +221,7 @@ def judge (args : List String) : String :=
       let cfg := Gluon.C11.sessionCfg (tls == "1")
       let r := readAll cfg (fuelFor input) (iterFor input) (PState.init input)
       let st0 : SState JState := SState.init ⟨false, .ok, false⟩
-      match walk cfg 0 r.1 st0 none obs {} with
+      match walk cfg (4 * r.1.length + 8) 0 r.1 st0 none obs {} with
       | .error e => s!"violation cause=model-mismatch | {e}"
       | .ok (a, why, rest) =>
         if !rest.isEmpty then
